@@ -89,10 +89,11 @@ def run_jobs(c, name, fn, jobs, rule="", nworkers=None, deadline_s=120, confirm=
             _merge(L, r)
             if r.get("violation"):
                 pending_confirm.append(r)
-        # confirmation runs (sequential, on an otherwise idle pool)
+        # confirmation runs (on an otherwise idle pool)
         if errors:
             raise vcheck.Broken("driver error in layer %s (%d jobs): %s" % (name, len(errors), errors[0]["error"]))
         seen_cls = {}
+        confirmed_unknown = 0
         known_cls = {f["class"] for f in c.known()}
         for r in pending_confirm:
             cls, detail = r["violation"]
@@ -100,20 +101,21 @@ def run_jobs(c, name, fn, jobs, rule="", nworkers=None, deadline_s=120, confirm=
             if seen_cls.get(cls, 0) >= 3:
                 L.vclasses[cls] = L.vclasses.get(cls, 0) + 1  # counted, not re-confirmed one by one
                 continue
-            fails = 0
-            for _ in range(nconf):
-                rr = pool.apply(_call, ((fn, r["job"]),))
-                v = rr.get("violation")
-                if v and v[0] == cls:
-                    fails += 1
-                else:
-                    break
+            if confirmed_unknown >= 4 and cls not in known_cls:
+                # the verdict of this layer is settled by confirmed violations; the rest is counted as seen once, not re-run
+                L.counters["violations_not_reconfirmed"] = L.counters.get("violations_not_reconfirmed", 0) + 1
+                continue
+            # the re-runs are independent sessions: run them side by side (at most `confirm` of the workers are busy)
+            rrs = pool.map(_call, [(fn, r["job"])] * nconf, chunksize=1)
+            fails = sum(1 for rr in rrs if rr.get("violation") and rr["violation"][0] == cls)
             if fails == nconf:
                 seen_cls[cls] = seen_cls.get(cls, 0) + 1
                 d = dict(detail)
                 d["job"] = r["job"]
                 d["confirmed_runs"] = nconf
                 L.violation(cls, d)
+                if cls not in known_cls:
+                    confirmed_unknown += 1
             else:
                 L.counters["unconfirmed_disagreements"] = L.counters.get("unconfirmed_disagreements", 0) + 1
                 if len(L.notes) < 10:
